@@ -183,7 +183,7 @@ def runEntry (entry : String) (m : Matcher) (text : List Nat) (start : Nat) (sub
       | .ok out => "R" ++ hexOfBytes out
   | _ => "bad-op"
 
-def fuelC : Nat := 4000
+def fuelC : Nat := 20000
 
 def parseSubst (rest : List String) : Option (Option Val) :=
   match rest with
